@@ -41,6 +41,34 @@ def uc_resolver(chk):
     return resolve
 
 
+def uc_inline_hook(repo):
+    """call_hook: ``self.unit_cell.m(args)`` with UnitCell.m a single-return method is replaced by that return expression
+    (self -> self.unit_cell), so that a helper on the cell is classified by what it computes, not by its name."""
+    uc = repo.module(UC)
+
+    def hook(ev, callee, args, kwargs, node):
+        ca = callee.as_atom()
+        if not (ca and ca[0] == "attr" and ca[1].key() in ("self.unit_cell", "self.uc")):
+            return None
+        fn = uc.funcs.get(f"UnitCell.{ca[2]}")
+        if fn is None:
+            return None
+        body = [st for st in fn.body if not (isinstance(st, ast.Expr) and isinstance(st.value, ast.Constant))]
+        if len(body) != 1 or not isinstance(body[0], ast.Return) or body[0].value is None:
+            return None
+        params = [a.arg for a in fn.args.args]
+        if len(args) + 1 > len(params) or kwargs:
+            return None
+        bind = {params[0]: ca[1]}
+        bind.update(dict(zip(params[1:], args)))
+        if set(bind) != set(params):
+            return None
+        sub = Ev([body[0]], uc.ctx, params=bind)
+        sub.run()
+        return sub.returns[0].value
+    return hook
+
+
 def split_extent(arg: P, params):
     """arg = p + s*E with E the part proportional to a radius parameter -> (E, p, radius_atom) or None."""
     num = arg.n
@@ -71,7 +99,8 @@ def run(chk):
     chk.rule("R03.4", "slab alignment: position block i and cell block i share one slice; other columns are tiled cell-major", 6)
     chk.rule("R03.5", "the centre's own atoms are excluded by a distance threshold and all reported arrays share the keep index", 8)
     resolver = uc_resolver(chk)
-    evs = {q: cr.ev("Crystal." + q) for q in SITES}
+    hook = uc_inline_hook(repo)
+    evs = {q: cr.ev("Crystal." + q, call_hook=hook) for q in SITES}
     for q in SITES:
         chk.saw(CR, "Crystal." + q)
     if chk.want("R03.1") or chk.want("R03.2") or chk.want("R03.3"):
@@ -81,7 +110,7 @@ def run(chk):
             if fn.name in SITES or not any(isinstance(n, (ast.Name, ast.Attribute)) and getattr(n, "id", getattr(n, "attr", None)) in ("ceil", "floor")
                                           for n in ast.walk(fn)):
                 continue
-            hev = cr.ev("Crystal." + fn.name)
+            hev = cr.ev("Crystal." + fn.name, call_hook=hook)
             if extent_calls(hev):
                 helpers[fn.name] = hev
         for h, hev in helpers.items():
